@@ -1,0 +1,26 @@
+//go:build verif
+
+package password
+
+// Contracts for gvc (contract-based deductive verification, see /verif/DESIGN.md).
+// Comment-only file, compiled only under the build tag "verif".
+
+// ICAO 9303-11 §4.3.2 / §9.7.2: for an MRZ-derived password K = SHA-1(MRZ information); for a CAN K = CAN.
+//@ func (password *Password) Key
+//@   props C05 C04
+//@   requires password != nil
+//@   ensures "mrz-key-is-sha1-of-mrz-information": password.PasswordType == 1 ==> result1 == nil && result0 === hashF(3, password.Password) && len(result0) == 20
+//@   ensures "can-key-is-the-can": password.PasswordType == 2 ==> result1 == nil && result0 === password.Password
+//@   ensures "other-types-rejected": (result1 == nil) == (password.PasswordType == 1 || password.PasswordType == 2)
+//@   ensures result1 != nil ==> result0 == nil
+//@   ensures fresh(result0)
+//@   assigns nothing
+//@   safety all
+
+//@ func (password *Password) Type
+//@   props C04
+//@   requires password != nil
+//@   ensures (result1 == nil) == (password.PasswordType == 1 || password.PasswordType == 2)
+//@   ensures result1 == nil ==> result0 == password.PasswordType
+//@   assigns nothing
+//@   safety all
